@@ -1715,10 +1715,10 @@ impl Rem<Vec3A> for Vec3A {
     type Output = Self;
     #[inline]
     fn rem(self, rhs: Self) -> Self {
-        unsafe {
-            let n = m128_floor(_mm_div_ps(self.0, rhs.0));
-            Self(_mm_sub_ps(self.0, _mm_mul_ps(n, rhs.0)))
-        }
+        // `%` is the exact truncated remainder with the sign of the dividend, as for `f32`
+        // and the other vector types. SSE2 has no equivalent instruction and
+        // `self - floor(self / rhs) * rhs` is a floored, inexact remainder.
+        Self::new(self.x % rhs.x, self.y % rhs.y, self.z % rhs.z)
     }
 }
 
